@@ -107,6 +107,33 @@ def run(ck):
                     if kind != "multiclass":
                         k2 = rng.choice(["then", "else", "foreach", "let", "defset"])
                         seqs.append(("nest", wrap(k2, wrap(kind, inner, braces), rng.random() < 0.5, other=gdoc.sentence(rng, "If", budget=3) if rng.random() < 0.3 else None)))
+    # value contexts: short `defvar a = <value>;` sentences covering the value rules (suffixes, slices, ranges, dags, lists, bits,
+    # class values, operators), and EVERY insertion of a value-level token or short phrase (`# x`, `.f`, `{0}`, `[0]`, `<int>`,
+    # `:$a`) at EVERY position: what may follow what inside a value
+    vbases = []
+    for _ in range(60 if quick else 600):
+        v = gdoc.sentence(rng, "Value", budget=rng.choice([2, 3, 4, 5]))
+        if 1 <= len(v) <= 9:
+            vbases.append(["Defvar", "Id", "Equal"] + v + ["Semi"])
+    vbases += [["Defvar", "Id", "Equal", "Id", "LSquare", "IntVal", "IntVal", "RSquare", "Semi"],            # x[0 -3]
+               ["Defvar", "Id", "Equal", "Id", "LSquare", "IntVal", "DotDotDot", "IntVal", "RSquare", "Semi"],
+               ["Defvar", "Id", "Equal", "Id", "LSquare", "IntVal", "Minus", "IntVal", "Comma", "Id", "RSquare", "Semi"],
+               ["Defvar", "Id", "Equal", "Id", "LBrace", "IntVal", "IntVal", "RBrace", "Semi"],                # x{3 -0}
+               ["Defvar", "Id", "Equal", "Id", "LBrace", "IntVal", "Minus", "IntVal", "Comma", "IntVal", "RBrace", "Semi"],
+               ["Defvar", "Id", "Equal", "LParen", "Id", "Id", "Colon", "VarName", "Comma", "IntVal", "RParen", "Semi"]]
+    phrases = [[k] for k in ["Paste", "Dot", "LBrace", "RBrace", "LSquare", "RSquare", "Less", "Greater", "Colon", "Comma", "IntVal", "Id", "StrVal",
+                             "Minus", "DotDotDot", "Question", "LParen", "RParen", "Equal", "VarName"]]
+    phrases += [["Paste", "Id"], ["Dot", "Id"], ["LBrace", "IntVal", "RBrace"], ["LSquare", "IntVal", "RSquare"], ["Less", "Int", "Greater"],
+                ["Colon", "VarName"], ["Paste", "StrVal"], ["LSquare", "IntVal", "IntVal", "RSquare"], ["Dot", "Id", "Dot", "Id"]]
+    vseen = set()
+    for vb in vbases:
+        if tuple(vb) in vseen:
+            continue
+        vseen.add(tuple(vb))
+        seqs.append(("value-ctx", vb))
+        for i in range(3, len(vb)):
+            for ph in phrases:
+                seqs.append(("value-ins", vb[:i] + ph + vb[i:]))
     base = [s for _, s in seqs if 2 <= len(s) <= 14]
     rng.shuffle(base)
     vocab = sorted({k for _, s in seqs for k in s})
